@@ -13,7 +13,7 @@ import tempfile
 from datetime import datetime, timedelta
 from typing import Any
 
-from vf.core import Collector, Ctx, hyp_explore
+from vf.core import Collector, Ctx, hyp_explore, jdump
 
 RULE = (
     "Frames are built from generated components: verb x seqn (---, 000-255) x the 3 legal address-set shapes "
@@ -22,7 +22,8 @@ RULE = (
     "packets add RSSI (---, ..., 000-255), comments; CLI short forms are derived per shape (1/2/3 addresses, with and "
     "without seqn, mixed case, extra blanks). A case is non-trivial and distinct by (verb, seqn form, shape, code, "
     "payload) when its payload is not in the committed corpus; log cases count when >= 3 packets are written and "
-    ">= 1 carries a comment."
+    ">= 1 carries a comment; in a third of the log cases reading is paused at a generated packet for 0.5 ms..30 s and resumed "
+    "(what Engine._pause()/_resume() do round a snapshot or restore) - the replayed sequence must not change."
 )
 
 
@@ -207,7 +208,7 @@ def _corpus_payloads() -> set[str]:
 
 
 # ------------------------------------------------------------------------------------------
-def write_and_replay_log(records: list[dict]) -> tuple[list[tuple[str, str, str]], list[tuple[str, str, str]], str]:
+def write_and_replay_log(records: list[dict], pauses: dict | None = None) -> tuple[list[tuple[str, str, str]], list[tuple[str, str, str]], str]:
     """Write packets through the library's packet logger, replay the file; return (written, replayed, log text)."""
     import logging
 
@@ -240,20 +241,21 @@ def write_and_replay_log(records: list[dict]) -> tuple[list[tuple[str, str, str]
             PKT_LOGGER.setLevel(logging.CRITICAL + 10)
         with open(path) as fh:
             text = fh.read()
-        res = rx.replay_text(text)
+        res = rx.replay_text(text, pauses=pauses) if pauses else rx.replay_text(text)
         replayed = [(p.dtm.isoformat(timespec="microseconds"), str(p), p.comment) for p in res["pkts"]]
         return written, replayed, text
     finally:
         shutil.rmtree(tmpd, ignore_errors=True)
 
 
-def check_log(col: Collector, records: list[dict]) -> None:
-    written, replayed, text = write_and_replay_log(records)
+def check_log(col: Collector, records: list[dict], pauses: dict | None = None) -> None:
+    written, replayed, text = write_and_replay_log(records, pauses)
     n_comment = sum(1 for w in written if w[2])
-    nt = tuple(w[1] for w in written) if len(written) >= 3 and n_comment >= 1 else None
-    col.case(nt=nt, classes=["log", f"log:pkts:{'0-2' if len(written) < 3 else '3+'}"],
-             sample={"records": records[:3], "log_head": text.splitlines()[:4]})
-    case = {"records": records}
+    nt = (tuple(w[1] for w in written), jdump(pauses)) if len(written) >= 3 and n_comment >= 1 else None
+    paused = bool(pauses) and any(int(k) < len(written) for k in pauses)
+    col.case(nt=nt, classes=["log", f"log:pkts:{'0-2' if len(written) < 3 else '3+'}", "log:paused-mid-replay" if paused else "log:straight"],
+             sample={"records": records[:3], "pauses": pauses, "log_head": text.splitlines()[:4]})
+    case = {"records": records, "pauses": pauses} if pauses else {"records": records}
     if [w[1] for w in written] != [r[1] for r in replayed]:
         col.violation({"clause": "log-frames-differ", "via": "packet log -> FileTransport"}, case,
                       f"written {len(written)} replayed {len(replayed)}: {[w[1] for w in written][:2]} vs {[r[1] for r in replayed][:2]}")
@@ -280,7 +282,7 @@ def explore_logs(job: dict) -> dict:
     comment = st.one_of(st.just(""), st.text("abcXYZ 0123#*<:-", min_size=1, max_size=12).map(str.strip))
 
     @st.composite
-    def log_case(draw: Any) -> list[dict]:
+    def log_case(draw: Any) -> tuple[list[dict], dict | None]:
         n = draw(st.integers(1, 12))
         t = draw(st.datetimes(min_value=datetime(2001, 1, 1), max_value=datetime(2037, 12, 31)))
         out = []
@@ -289,9 +291,12 @@ def explore_logs(job: dict) -> dict:
             f = draw(G.schema_frame(wire_only=True))
             out.append({"dtm": t.isoformat(timespec="microseconds"), "rssi": draw(G.rssi()), "frame": f["frame"],
                         "comment": draw(comment)})
-        return out
+        pauses = None
+        if draw(st.integers(0, 2)) == 0:  # reading is paused at the k-th packet for a while, then resumed (Engine._pause / _resume)
+            pauses = {str(draw(st.integers(1, n))): draw(st.sampled_from((0.0005, 0.001, 0.01, 0.5, 30.0))) for _ in range(draw(st.integers(1, 2)))}
+        return out, pauses
 
-    hyp_explore(log_case(), lambda recs: check_log(col, recs), job["n"], job["seed"])
+    hyp_explore(log_case(), lambda rp: check_log(col, rp[0], rp[1]), job["n"], job["seed"])
     return col.dump()
 
 
@@ -313,7 +318,7 @@ def replay(case: dict) -> list[tuple[dict, str]]:
     quiet_logs()
     col = Collector()
     if "records" in case:
-        check_log(col, case["records"])
+        check_log(col, case["records"], case.get("pauses"))
     else:
         f = parse_components(case["frame"])
         x = {"dtm": datetime.fromisoformat(case.get("dtm", "2024-03-01T12:00:00.123456")),
